@@ -87,14 +87,28 @@ def strip_comments(text: str) -> str:
     return "".join(res)
 
 
-def text_scan():
-    """Forbidden tokens (outside comments) anywhere in the Lean sources."""
+def import_closure(modules):
+    """source files of our own modules reachable from `modules` via `import`"""
+    seen, todo = {}, list(modules)
+    while todo:
+        m = todo.pop()
+        if m in seen or not (m.startswith("AdaptiveModel") or m.startswith("AdaptiveProofs")):
+            continue
+        f = LEAN / (m.replace(".", "/") + ".lean")
+        if not f.exists():
+            continue
+        seen[m] = f
+        for line in f.read_text().splitlines():
+            mm = re.match(r"\s*import\s+([\w.]+)", line)
+            if mm:
+                todo.append(mm.group(1))
+    return seen
+
+
+def text_scan(modules):
+    """Forbidden tokens (outside comments) in every source file the modules depend on."""
     hits = []
-    for p in sorted(LEAN.rglob("*.lean")):
-        if ".lake" in p.parts:
-            continue
-        if p.name == "AuditTool.lean":
-            continue
+    for m, p in sorted(import_closure(modules).items()):
         body = strip_comments(p.read_text())
         for ln, line in enumerate(body.splitlines(), 1):
             if FORBIDDEN.search(line):
@@ -152,7 +166,7 @@ def prove(modules, extra_targets=(), leanchecker=False) -> Proof:
         pr.broken = [f"lake build: {e[:300]}" for e in errs[:20]] or ["lake build failed"]
         pr.wall = time.time() - t0
         return pr
-    pr.scan_hits = text_scan()
+    pr.scan_hits = text_scan(modules)
     if pr.scan_hits:
         pr.broken += [f"forbidden token: {h}" for h in pr.scan_hits]
     thms, alog = audit(modules)
